@@ -1266,6 +1266,9 @@ fn run_op(a: &[&str]) -> R {
                     "seedv" => for _ in 0..n { vals.push(vanilla_header::ProofSeed::new().seed().to_le_bytes().to_vec()); },
                     "seedt" => for _ in 0..n { vals.push(tbc_header::ProofSeed::new().seed().to_le_bytes().to_vec()); },
                     "seedw" => for _ in 0..n { vals.push(wrath_header::ProofSeed::new().seed().to_le_bytes().to_vec()); },
+                    "seedvd" => for _ in 0..n { vals.push(<vanilla_header::ProofSeed as Default>::default().seed().to_le_bytes().to_vec()); },
+                    "seedtd" => for _ in 0..n { vals.push(<tbc_header::ProofSeed as Default>::default().seed().to_le_bytes().to_vec()); },
+                    "seedwd" => for _ in 0..n { vals.push(<wrath_header::ProofSeed as Default>::default().seed().to_le_bytes().to_vec()); },
                     "integsalt" => for _ in 0..n { vals.push(integrity::get_salt_value().to_vec()); },
                     "pinsalt" => for _ in 0..n { vals.push(pin::get_pin_salt().to_vec()); },
                     "pinseed" => for _ in 0..n { vals.push(pin::get_pin_grid_seed().to_le_bytes().to_vec()); },
@@ -1295,6 +1298,12 @@ fn run_op(a: &[&str]) -> R {
         ["rng.pinsalt"] => hex(&pin::get_pin_salt()),
         ["rng.integsalt"] => hex(&integrity::get_salt_value()),
         ["rng.mcseed"] => format!("{}", matrix_card::get_matrix_card_seed()),
+        // the other public way to a seed: the Default impl (also what #[derive(Default)] on an embedding struct calls)
+        ["rng.proofseed.default", exp] => match *exp {
+            "v" => format!("{}", <vanilla_header::ProofSeed as Default>::default().seed()),
+            "t" => format!("{}", <tbc_header::ProofSeed as Default>::default().seed()),
+            _ => format!("{}", <wrath_header::ProofSeed as Default>::default().seed()),
+        },
         ["rng.proofseed", exp] => match *exp {
             "v" => format!("{}", vanilla_header::ProofSeed::new().seed()),
             "t" => format!("{}", tbc_header::ProofSeed::new().seed()),
